@@ -359,6 +359,101 @@ fn clone_from_set_pair<const N: usize>(dkeys: &[(u8, u8)], skeys: &[(u8, u8)], c
     cx.check(PM | C02, pl::live_count() == 0, || "objects still alive after both sets were dropped".to_string());
 }
 
+/// Element shapes: clone / clone_from of maps and sets of other key/value types (zero-sized key
+/// and/or value, plain Copy, heap-owning, large). Entries are compared by their codes.
+fn shape_clone<K: KeyT, V: ValT, const N: usize>(rep: &mut EngineReport, nk: u8, nv: u8, threads: usize) {
+    use mc::setsys::{SAlpha, SetSys};
+    let msys = MapSys::<K, V, N>::new(nk, nv, Alpha::Gen);
+    let ssys = SetSys::<K, N>::new(nk, SAlpha::Gen, 0);
+    let config = format!("element shape: clone / clone_from of Map<{},{},{N}> and Set<{},{N}>", K::NAME, V::NAME, K::NAME);
+    let t0 = std::time::Instant::now();
+    let mut q = Ctx::new(0);
+    let mout = bfs(&msys, threads, &Caps::default(), &mut q);
+    let sout = bfs(&ssys, threads, &Caps::default(), &mut q);
+    let mut cx = rep.cx.fork();
+    cx.here.config = config.clone();
+    let codes = |e: &[(KD, VD)]| {
+        let mut x: Vec<(u8, u8, u8)> = e.iter().map(|(k, v)| (k.k, k.tag, v.v)).collect();
+        x.sort();
+        x
+    };
+    let nm = mout.states.len();
+    par_states(nm * nm, threads, &mut cx, |i, lcx| {
+        let (d, s) = (i / nm, i % nm);
+        let (dpath, spath) = (mout.path_of(d), mout.path_of(s));
+        lcx.here.path = spath.iter().map(|i| msys.ops[*i as usize].to_string()).collect();
+        lcx.here.path_idx = spath.clone();
+        lcx.here.extra = format!("shape {}/{}", K::NAME, V::NAME);
+        lcx.evaluations += 1;
+        let src = msys.build(&spath, lcx);
+        let want = codes(&entries_of(&src.bx.c));
+        if !want.is_empty() {
+            lcx.nontrivial += 1;
+        }
+        if d == 0 {
+            lcx.here.op = "clone".into();
+            let c = src.bx.c.clone();
+            let got = codes(&entries_of(&c));
+            lcx.check(PM, got == want && c.len() == src.bx.c.len(), || format!("the clone holds {got:?} (len {}) but the original holds {want:?}", c.len()));
+            lcx.check(PM, c == src.bx.c && src.bx.c == c, || "clone != original".to_string());
+            let mut c = c;
+            c.clear();
+            lcx.check(PM, codes(&entries_of(&src.bx.c)) == want, || "clearing the clone changed the original".to_string());
+        }
+        lcx.here.op = "dst.clone_from(&src)".into();
+        let mut dst = msys.build_more(&dpath, lcx);
+        dst.bx.c.clone_from(&src.bx.c);
+        let got = codes(&entries_of(&dst.bx.c));
+        lcx.check(PM, got == want && dst.bx.c.len() == src.bx.c.len() && dst.bx.c == src.bx.c, || format!("after clone_from dst holds {got:?} but src holds {want:?}"));
+        lcx.check(PM, codes(&entries_of(&src.bx.c)) == want, || "clone_from changed the source".to_string());
+        invariants(&dst.bx.c, lcx, PM);
+    });
+    let ns = sout.states.len();
+    par_states(ns * ns, threads, &mut cx, |i, lcx| {
+        let (d, s) = (i / ns, i % ns);
+        let (dpath, spath) = (sout.path_of(d), sout.path_of(s));
+        lcx.here.path = spath.iter().map(|i| ssys.ops[*i as usize].to_string()).collect();
+        lcx.here.path_idx = spath.clone();
+        lcx.here.extra = format!("shape set {}", K::NAME);
+        lcx.evaluations += 1;
+        let src = ssys.build(&spath, lcx);
+        let elems = |s: &Set<K, N>| {
+            let mut x: Vec<(u8, u8)> = s.iter().map(|k| (k.kd().k, k.kd().tag)).collect();
+            x.sort();
+            x
+        };
+        let want = elems(&src.bx.c);
+        if !want.is_empty() {
+            lcx.nontrivial += 1;
+        }
+        if d == 0 {
+            lcx.here.op = "Set::clone".into();
+            let c = src.bx.c.clone();
+            let got = elems(&c);
+            lcx.check(PM, got == want && c.len() == src.bx.c.len(), || format!("the cloned set holds {got:?} (len {}) but the original holds {want:?}", c.len()));
+            lcx.check(PM, c == src.bx.c && src.bx.c == c, || "cloned set != original".to_string());
+        }
+        lcx.here.op = "Set: dst.clone_from(&src)".into();
+        let mut dst = ssys.build(&dpath, lcx);
+        dst.bx.c.clone_from(&src.bx.c);
+        let got = elems(&dst.bx.c);
+        lcx.check(PM, got == want && dst.bx.c.len() == src.bx.c.len() && dst.bx.c == src.bx.c, || format!("after Set::clone_from dst holds {got:?} but src holds {want:?}"));
+    });
+    rep.configs.push(J::obj().set("config", config).set("map_states", nm).set("set_states", ns).set("wall_s", t0.elapsed().as_secs_f64()));
+    rep.states += (nm + ns) as u64;
+    rep.transitions += cx.evaluations;
+    rep.cx.merge(cx);
+}
+
+fn shapes_n<const N: usize>(rep: &mut EngineReport, nk: u8, nv: u8, threads: usize) {
+    shape_clone::<(), (), N>(rep, nk, nv, threads);
+    shape_clone::<(), u8, N>(rep, nk, nv, threads);
+    shape_clone::<u8, (), N>(rep, nk, nv, threads);
+    shape_clone::<u8, u8, N>(rep, nk, nv, threads);
+    shape_clone::<String, String, N>(rep, nk, nv, threads);
+    shape_clone::<u8, mc::payload::Big, N>(rep, nk, nv, threads);
+}
+
 fn args_cap() -> usize {
     Args::from_env().usize("pair-cap", 4_000_000)
 }
@@ -461,6 +556,10 @@ fn main() {
     }
     for n in ns {
         let nk = (n + 1) as u8;
+        if args.flag("shapes") {
+            mc::with_n!(n, shapes_n::<>(&mut rep, nk, nv, threads));
+            continue;
+        }
         if payload != "nodrop" {
             mc::with_n!(n, run_n::<Kx, Vx>(&mut rep, nk, nv, threads, true, None));
         }
